@@ -80,6 +80,11 @@ def build(rng, triple):
     else:
         nm = rng.randint(1, 3)
         ovs = gen.distinct_overhangs(rng, k, nm + 1, forbid)
+        if len(ovs) == nm + 1 and nm >= 2 and rng.random() < 0.3:
+            # the vector closes on the reverse complement of an inner junction (legal: only start overhangs pair up)
+            cand = gen.rc(ovs[rng.randrange(1, nm)])
+            if cand not in ovs and not any(x in cand for x in forbid):
+                ovs[nm] = cand
     for _ in range(200):
         vs, vg = inst_with(rng, V.structure(), ovs[0], ovs[nm], None, forbid)
         if vs is None:
